@@ -3,6 +3,7 @@ package wgen
 import (
 	"fmt"
 	"math"
+	"strings"
 
 	"verif/internal/xrt"
 )
@@ -279,6 +280,29 @@ func F15Access() *Family {
 		e := ents[i]
 		c := BuildF15Access(accForms[e.f], e.idx, e.signed)
 		c.Family, c.Index = "F15acc", i
+		return c
+	}}
+}
+
+// F4Access: the same access forms with in-bounds indices only (u32 and i32 index types) — part of
+// the ordinary semantic program space of C01/C03-C05.
+func F4Access() *Family {
+	type ent struct {
+		f      int
+		idx    uint32
+		signed bool
+	}
+	var ents []ent
+	for fi, f := range accForms {
+		for ix := 0; ix < f.n; ix++ {
+			ents = append(ents, ent{fi, uint32(ix), false}, ent{fi, uint32(ix), true})
+		}
+	}
+	return &Family{Name: "F4acc", Count: len(ents), At: func(i int) *Case {
+		e := ents[i]
+		c := BuildF15Access(accForms[e.f], e.idx, e.signed)
+		c.Sig = strings.Replace(c.Sig, "F15acc/", "F4acc/", 1)
+		c.Family, c.Index = "F4acc", i
 		return c
 	}}
 }
